@@ -296,8 +296,15 @@ def d1(ctx):
               'read-previous and set-new happen in this order inside one `with %s` block' % LOCK,
               'read-previous and set-new are not in one locked block in that order', mod.loc(enter))
     ea = [src(a) for a in enter.args]
+    # the requested mode: the function's positional parameter, possibly through bool(...) or a
+    # local that holds bool(<mode>)
+    mp = (fn.args.posonlyargs + fn.args.args)[0].arg if (fn.args.posonlyargs + fn.args.args) else 'mode'
+    okmode = ea[:1] and ea[0] in ('bool(%s)' % mp, mp)
+    if ea[:1] and not okmode and isinstance(enter.args[0], ast.Name):
+        ds = [s_ for s_ in walk(fn) if isinstance(s_, ast.Assign) and is_name(s_.targets[0], ea[0])]
+        okmode = len(ds) == 1 and src(ds[0].value) in ('bool(%s)' % mp, mp)
     ctx.check('dict_insertion_ordered/sets-requested', len(ea) == 2 and ea[1] == 'namespace' and
-              ea[0] in ('bool(mode)', 'mode'),
+              bool(okmode),
               'the new mode is set for the same namespace', 'enter sets %s' % ea, mod.loc(enter))
     ra = [src(a) for a in restore.args]
     ctx.check('dict_insertion_ordered/restores-saved', ra == [prev, 'namespace'],
@@ -564,3 +571,58 @@ def t5(ctx):
                   'accessor.py installs %s on the extension module under its own name' % n,
                   'the engine fetches _C.%s but accessor.py installs %s there' % (n, exported.get(n)),
                   acc.relpath + ':1')
+
+
+# ---------------------------------------------------------------------------------------------
+# How a positional entry is turned into an attribute name by the typed entry classes.  The
+# position is the position of the child, so the name list must be the list the children follow:
+N3_TABLE = {
+    'NamedTupleEntry': ('NAMEDTUPLE_FIELDS', 'children of a namedtuple are its tuple items: one per _fields name'),
+    'StructSequenceEntry': ('STRUCTSEQ_FIELDS', 'children of a struct sequence are its visible items'),
+    'DataclassEntry': ('DATACLASS_INIT_FIELDS',
+                       'a dataclass registered without explicit entries is rebuilt positionally, and the '
+                       'positional parameters of the generated __init__ are the init=True fields, in order: '
+                       'a field with init=False takes no position'),
+}
+
+
+def _name_source(mod, cls, expr, depth=0):
+    """classify the list an entry index is applied to"""
+    if depth > 3 or expr is None:
+        return 'UNKNOWN'
+    if isinstance(expr, ast.Attribute) and isinstance(expr.value, ast.Name) and expr.value.id == 'self':
+        fn = mod.funcs.get('%s.%s' % (cls, expr.attr))
+        if fn is not None:
+            rets = [s_ for s_ in walk(fn) if isinstance(s_, ast.Return)]
+            if len(rets) == 1:
+                return _name_source(mod, cls, rets[0].value, depth + 1)
+        return 'UNKNOWN'
+    t = src(expr)
+    if isinstance(expr, ast.Call) and call_name(expr) == 'namedtuple_fields':
+        return 'NAMEDTUPLE_FIELDS'
+    if isinstance(expr, ast.Call) and call_name(expr) == 'structseq_fields':
+        return 'STRUCTSEQ_FIELDS'
+    if 'dataclasses.fields(' in t:
+        gens = [g for n_ in ast.walk(expr) if isinstance(n_, (ast.GeneratorExp, ast.ListComp)) for g in n_.generators]
+        if any(isinstance(i_, ast.Attribute) and i_.attr == 'init' for g in gens for i_ in g.ifs):
+            return 'DATACLASS_INIT_FIELDS'
+        return 'DATACLASS_ALL_FIELDS'
+    return 'UNKNOWN'
+
+
+@rule('N3', floor=3, title='a positional entry of a typed entry class is resolved in the name list the children follow')
+def n3(ctx):
+    pkg = ctx.py()
+    mod = pkg.mod('optree.accessor')
+    for cls, (want, why) in N3_TABLE.items():
+        fn = mod.funcs.get(cls + '.field')
+        ctx.require(fn is not None, 'accessor.%s.field not found' % cls)
+        subs = [n_ for n_ in walk(fn) if isinstance(n_, ast.Subscript) and src(n_.slice) == 'self.entry']
+        ctx.require(len(subs) == 1, '%s.field: %d subscripts by self.entry' % (cls, len(subs)))
+        got = _name_source(mod, cls, subs[0].value)
+        if got == 'UNKNOWN':
+            ctx.require(False, '%s.field: the indexed name list `%s` is not recognised' % (cls, src(subs[0].value)))
+        ctx.check('accessor.%s/positional-name' % cls, got == want,
+                  '%s.field resolves an integer entry in %s (%s)' % (cls, want, why),
+                  '%s.field resolves an integer entry in %s, but %s: the accessor addresses another '
+                  'attribute than the child it stands for' % (cls, got, why), mod.loc(fn))
